@@ -7,7 +7,7 @@ import sympy as sp
 
 from .. import sym
 from ..cfg import CFG, ENTRY, EXIT
-from ..core import AnalysisError, names_in, norm, walk_no_nested
+from ..core import AnalysisError, kwarg, names_in, norm, walk_no_nested
 
 EXPLANATION = (
     "Static analysis of fits_tools.compress / is_compressed / expand / "
@@ -31,6 +31,22 @@ ASSUMPTIONS = [
 
 
 MUTANTS = [
+    ("factor 1 rejected", "AegeanTools/fits_tools.py",
+     "    if not (factor > 0 and isinstance(factor, int)):",
+     "    if not (factor > 1 and isinstance(factor, int)):", "C15-R9"),
+    ("residual computed with floor division", "AegeanTools/fits_tools.py",
+     "    lcx = cx % factor", "    lcx = cx // factor", "C15-R9"),
+    ("node array without the extra row", "AegeanTools/fits_tools.py",
+     "    new_data = np.empty((nx + 1, ny + 1))",
+     "    new_data = np.empty((nx, ny + 1))", "C15-R9"),
+    ("extra row copied from the last but one image row",
+     "AegeanTools/fits_tools.py",
+     "    new_data[-1, :ny] = data[-1, ::factor]",
+     "    new_data[-1, :ny] = data[-2, ::factor]", "C15-R9"),
+    ("decimated data stored into the first extension",
+     "AegeanTools/fits_tools.py",
+     "    hdulist[0].data = np.array(new_data, dtype=np.float32)",
+     "    hdulist[1].data = np.array(new_data, dtype=np.float32)", "C15-R10"),
     ("compress also rescales the off-diagonal CD terms",
      "AegeanTools/fits_tools.py",
      "        header['CD1_1'] *= factor\n",
@@ -580,11 +596,209 @@ def run(ctx):
               "(transparent expansion) and compare the shape of its result",
               node=aux.node)
     r6_written(ctx, prog)
+    _raw = ctx.raw_prog()      # the bookkeeping is read as it is written
+    r9_arithmetic(ctx, _raw, _raw.func("fits_tools.compress"),
+                  _raw.func("fits_tools.expand"))
     # compress / expand work on physical values (shared with C20-R6)
     from .c20 import r6_bscale
     r6_bscale(ctx, prog, rule="C15-R7")
     from .c20 import r7_fresh
     r7_fresh(ctx, prog, rule="C15-R8")
+
+
+def r9_arithmetic(ctx, prog, comp, exp):
+    """the integer bookkeeping of compress, interpreted over sample sizes:
+    which factors are accepted, how many nodes are kept, the size of the
+    node array, which rows / columns the extra node copies, when the file is
+    written; and one HDU index throughout"""
+    from .. import concrete
+    ctx.rule("C15-R9", "compress, interpreted over sample (size, factor) "
+             "pairs: factors 1, 2, 64 pass the argument test and 0, -3, 2.5 "
+             "do not; for every size the number of nodes kept per axis is "
+             "ceil(size / factor), the residual is size % factor, the node "
+             "array has one extra row and column, that extra row / column "
+             "is filled from the LAST image row / column (index -1 on both "
+             "sides, the regular nodes from [::factor]); the output file is "
+             "written exactly when a name is given, overwriting")
+    # -- argument test ------------------------------------------------------
+    fpar = comp.params[1]
+    guards = [st for st in comp.node.body if isinstance(st, ast.If) and
+              fpar in names_in(st.test) and st.body and
+              isinstance(st.body[-1], (ast.Return, ast.Raise))]
+    if not guards:
+        raise AnalysisError("C15-R9: argument test of compress")
+    bad = []
+    for v, want in ((1, False), (2, False), (64, False), (0, True),
+                    (-3, True), (2.5, True)):
+        try:
+            got = any(bool(concrete.ev(g.test, {fpar: v})) for g in guards)
+        except concrete.Unknown as e:
+            raise AnalysisError("C15-R9: argument test: %s" % e)
+        if got != want:
+            bad.append((v, "rejected" if got else "accepted"))
+    ctx.check("C15-R9", comp, "argument test " + norm(guards[0].test, 60),
+              not bad, "factor %s is %s" % (bad[0] if bad else ("", "")),
+              node=guards[0])
+    # -- node counts --------------------------------------------------------
+    body = comp.node.body
+    size = [st for st in body if isinstance(st, ast.Assign) and
+            isinstance(st.targets[0], ast.Tuple) and
+            ".shape" in norm(st.value)]
+    if not size:
+        # cx = data.shape[0]; cy = data.shape[1]  as two statements
+        one = [st for st in body if isinstance(st, ast.Assign) and
+               isinstance(st.targets[0], ast.Name) and
+               isinstance(st.value, ast.Subscript) and
+               norm(st.value.value).endswith(".shape") and
+               isinstance(st.value.slice, ast.Constant)]
+        one.sort(key=lambda st: st.value.slice.value)
+        if len(one) == 2:
+            pair = ast.Assign(targets=[ast.Tuple(
+                elts=[one[0].targets[0], one[1].targets[0]],
+                ctx=ast.Store())], value=ast.Tuple(
+                    elts=[one[0].value, one[1].value], ctx=ast.Load()))
+            body = [st for st in body if st is not one[0]]
+            body[body.index(one[1])] = pair
+            size = [pair]
+    alloc = [st for st in body if isinstance(st, ast.Assign) and
+             isinstance(st.value, ast.Call) and
+             norm(st.value.func).split(".")[-1] in ("empty", "zeros",
+                                                    "full", "ones")]
+    if len(size) != 1 or len(alloc) != 1:
+        raise AnalysisError("C15-R9: size / allocation statements of "
+                            "compress")
+    cxn, cyn = (norm(e) for e in size[0].targets[0].elts)
+    arr = norm(alloc[0].targets[0])
+    between = body[body.index(size[0]) + 1:body.index(alloc[0])]
+    stores = {}
+    from ..core import expand_locals
+    for key in ("BN_RPX1", "BN_RPX2"):
+        for st in walk_no_nested(comp.node):
+            if isinstance(st, ast.Assign) and \
+                    isinstance(st.targets[0], ast.Subscript) and \
+                    isinstance(st.targets[0].slice, ast.Constant) and \
+                    st.targets[0].slice.value == key:
+                v = st.value.elts[0] if isinstance(st.value, ast.Tuple) \
+                    else st.value
+                stores[key] = v
+    # the regular block  new[:nx, :ny] = data[::f, ::f]
+    reg = None
+    copies = []
+    for st in body:
+        if isinstance(st, ast.Assign) and \
+                isinstance(st.targets[0], ast.Subscript) and \
+                norm(st.targets[0].value) == arr and \
+                isinstance(st.targets[0].slice, ast.Tuple) and \
+                isinstance(st.value, ast.Subscript) and \
+                isinstance(st.value.slice, ast.Tuple) and \
+                len(st.targets[0].slice.elts) == 2 and \
+                len(st.value.slice.elts) == 2:
+            copies.append(st)
+    nbad = []
+    n = 0
+    for cx, cy, f in ((10, 15, 5), (11, 14, 5), (5, 4, 5), (1, 1, 1),
+                      (7, 9, 1), (64, 65, 64), (9, 10, 2)):
+        env = {cxn: cx, cyn: cy, fpar: f}
+        try:
+            concrete.run(between, env)
+            shape = concrete.ev(alloc[0].value.args[0], env)
+            res = [concrete.ev(stores[k], env) for k in ("BN_RPX1",
+                                                         "BN_RPX2")] \
+                if len(stores) == 2 else None
+            # extents of the regular block
+            ext = None
+            for st in copies:
+                te = st.targets[0].slice.elts
+                if all(isinstance(e, ast.Slice) for e in te):
+                    ext = [concrete.ev(e.upper, env) for e in te]
+        except concrete.Unknown as e:
+            raise AnalysisError("C15-R9: node arithmetic: %s" % e)
+        n += 1
+        wx, wy = -(-cx // f), -(-cy // f)
+        if ext != [wx, wy]:
+            nbad.append("size %dx%d factor %d: %s regular nodes kept, "
+                        "data[::f, ::f] has %s" % (cx, cy, f, ext, [wx, wy]))
+        elif list(shape) != [wx + 1, wy + 1]:
+            nbad.append("size %dx%d factor %d: node array %s, needs %s" %
+                        (cx, cy, f, shape, [wx + 1, wy + 1]))
+        elif res is not None and sorted(res) != sorted([cx % f, cy % f]):
+            nbad.append("size %dx%d factor %d: residuals %s, size %% factor "
+                        "is %s" % (cx, cy, f, res, [cx % f, cy % f]))
+    ctx.check("C15-R9", comp, "node counts over %d sample sizes" % n,
+              not nbad, nbad[0] if nbad else "", node=alloc[0])
+    # -- what fills the node array -----------------------------------------
+    ncp = 0
+    for st in copies:
+        te, se = st.targets[0].slice.elts, st.value.slice.elts
+        ncp += 1
+        probs = []
+        for ax, (t_, s_) in enumerate(zip(te, se)):
+            if isinstance(t_, ast.Slice):
+                ok = isinstance(s_, ast.Slice) and s_.step is not None and \
+                    norm(s_.step) == fpar and s_.lower is None and \
+                    s_.upper is None and t_.lower is None and t_.step is None
+            else:
+                ok = norm(t_).replace(" ", "") == "-1" and \
+                    norm(s_).replace(" ", "") == "-1"
+            if not ok:
+                probs.append("axis %d: %s <- %s" % (ax, norm(t_), norm(s_)))
+        ctx.check("C15-R9", comp, "node copy " + norm(st, 70), not probs,
+                  "regular nodes come from [::%s], the extra last node from "
+                  "index -1, on the same axis of both arrays; found %s" %
+                  (fpar, probs), node=st)
+    ctx.floor("C15-R9", ncp, 4, "node copy statements of compress")
+    # -- output file ---------------------------------------------------------
+    for fi in (comp, exp):
+        wr = [c for c in walk_no_nested(fi.node) if isinstance(c, ast.Call)
+              and isinstance(c.func, ast.Attribute) and
+              c.func.attr == "writeto"]
+        pm = {}
+        for x_ in ast.walk(fi.node):
+            for ch in ast.iter_child_nodes(x_):
+                pm[ch] = x_
+        for c in wr:
+            st = c
+            guard = None
+            while st in pm:
+                st = pm[st]
+                if isinstance(st, ast.If):
+                    guard = st
+                    break
+            op = fi.params[-1] if "outfile" not in fi.params else "outfile"
+            ok = guard is not None
+            if ok:
+                try:
+                    ok = bool(concrete.ev(guard.test, {op: "x.fits"})) and \
+                        not bool(concrete.ev(guard.test, {op: None}))
+                except concrete.Unknown:
+                    ok = False
+            ow = kwarg(c, "overwrite")
+            ctx.check("C15-R9", fi, "output written iff a name is given: " +
+                      norm(c, 50), ok and isinstance(ow, ast.Constant) and
+                      ow.value is True and c.args and norm(c.args[0]) == op,
+                      "the file must be written (overwrite=True) exactly "
+                      "when %s is not None" % op, node=c)
+    # -- one HDU -------------------------------------------------------------
+    ctx.rule("C15-R10", "compress and expand read and write ONE header-data "
+             "unit: every constant index into the HDU list is the same "
+             "(the primary HDU, 0)")
+    nh = 0
+    for fi in (comp, exp):
+        idx = {}
+        for x_ in walk_no_nested(fi.node):
+            if isinstance(x_, ast.Subscript) and \
+                    isinstance(x_.slice, ast.Constant) and \
+                    isinstance(x_.slice.value, int) and \
+                    isinstance(x_.value, ast.Name) and \
+                    "hdu" in x_.value.id.lower():
+                idx.setdefault(x_.slice.value, []).append(x_)
+                nh += 1
+        ctx.check("C15-R10", fi, "HDU indices used in %s: %s" %
+                  (fi.name, sorted(idx)), set(idx) <= {0},
+                  "header and data are taken from / stored into different "
+                  "HDUs (%s)" % sorted(idx),
+                  node=next(iter(idx.values()))[0] if idx else fi.node)
+    ctx.floor("C15-R10", nh, 6, "HDU list subscripts")
 
 
 def r6_written(ctx, prog):
